@@ -40,6 +40,7 @@ def sensitivity(only=None, budget=45, jobs=1, dirs=("mutants", "seeded")):
             r = subprocess.run(["patch", "-p1", "-s", "-d", scratch, "-i", p], capture_output=True, text=True)
             if r.returncode != 0:
                 rows.append((name, props, "PATCH-FAILED", r.stdout + r.stderr))
+                print(rows[-1], flush=True)
                 continue
             for prop in props:
                 env = dict(os.environ, FESIM_REPO_SRC=scratch + "/src")
